@@ -4,6 +4,7 @@
    of Properties_C07.v / C05 / C12 are about — for EVERY numeric dictionary N whose literals 1 / 1.0 are n_one and whose
    product commutes ([LsDictOK]: the reals, IEEE floats).
 
+   (Base definitions [abs], [src_dims] and the covariance tie are in SrcTieLs.v.)
    [abs] reads the generated record of data members (src_ls: the ten fields of the class, in declaration order) as the
    model's state: the model has no JtJ_ / JtY_ fields because computeJTJ_ / computeJTY_ overwrite every entry they later
    read — which is exactly what [tie_computeJTJ] / [tie_computeJTY] prove about the generated loops (the result is the
